@@ -1335,8 +1335,10 @@ def register_populations(R):
           ensures=[("a-population-on-a-chain-with-no-root", lambda E, v, o: chain_of(v) is not None and v["result"].fields.get("root") == ""),
                    # (a failed clause is a hypothesis of the later ones: the property's own clauses come before the structural one and are independent)
                    independent("total-length-is-the-sum-of-all-member-lengths:prefix-sums-over-the-populations", total_is_sum),
-                   independent("concatenation-of-all-members-in-order:one-chain-member-per-population-holding-all-of-its-trees-in-its-order", every_member_whole),
-                   ("members-are-the-populations'-containers-in-order", members)]
+                   independent("concatenation-of-all-members-in-order:one-chain-member-per-population-holding-all-of-its-trees-in-its-order", every_member_whole)]
+                  # the older structural clause "members-are-the-populations'-containers-in-order" (the chain members ARE the `.trees` objects) demanded
+                  # more than the property states: a chain of full views `p[:]` concatenates the same trees in the same order, lazily, and failed it.
+                  # Removed in the fourth session; the two clauses above and the laziness clause below carry the property.
           + [(lab.strip().replace("wf-", "chain/"), chain_clause(txt.strip())) for lab, txt in (c.split("::", 1) for c in WF_CHAIN)]
           + [("total-length-is-the-sum-of-the-member-lengths(last-prefix-sum)", chain_clause("len_(result) == self.cumsum[len_(self.trees)]")),
              "at-most-a-probe-of-the-first-tree :: ncalls('ChainTrees.__getitem__') <= 1 and implies(ncalls('ChainTrees.__getitem__') == 1, callarg('ChainTrees.__getitem__', 0, 'key') == 0) and ncalls('Trees.__getitem__') == 0"],
